@@ -10,6 +10,7 @@ import (
 	"errors"
 	"fmt"
 	"io/ioutil"
+	"os"
 	"time"
 
 	"github.com/bbva/qed/balloon"
@@ -147,6 +148,7 @@ func zzOpenNode(st storage.ManagedStore) *RaftNode {
 	if err := n.loadState(); err != nil {
 		panic(err)
 	}
+	zzReconcile(n, st)
 	n.metrics = newRaftNodeMetrics(n)
 	if !rt.Symbolic() && !noRaft {
 		zzAttachRaft(n)
@@ -154,7 +156,71 @@ func zzOpenNode(st storage.ManagedStore) *RaftNode {
 	return n
 }
 
+// zzCurCovered is what the engine redirect of (*raftLog).LastIndex answers.
+var zzCurCovered uint64
+
+// zzLastIndexModel is the engine redirect target of (*raftLog).LastIndex in the
+// FSM-level harnesses: the Raft log next to the store is the ghost MemStore.Covered.
+func zzLastIndexModel(l *raftLog) (uint64, error) { return zzCurCovered, nil }
+
+// zzReconcile runs the start-up step that follows loadState in NewRaftNodeWithLogger
+// (reconcileStateWithLog) against the Raft log that sits next to the store: under the
+// engine the log is the ghost index, natively a real raftLog (RocksDB) holding an entry
+// at that index and a real, empty file snapshot store.
+func zzReconcile(n *RaftNode, st storage.ManagedStore) {
+	covered := uint64(0)
+	switch ms := st.(type) {
+	case *models.MemStore:
+		covered = ms.Covered
+	}
+	// (looked up through an interface so that the harness still builds on a tree that has no such step)
+	rc, has := interface{}(n).(interface{ reconcileStateWithLog() error })
+	if !has {
+		return
+	}
+	if rt.Symbolic() {
+		zzCurCovered = covered
+		if err := rc.reconcileStateWithLog(); err != nil {
+			panic(err)
+		}
+		return
+	}
+	if nst := zzNative[st]; nst != nil {
+		if last, _ := nst.logs.LastIndex(); last > covered {
+			covered = last
+		}
+	}
+	dir, err := ioutil.TempDir("", "zzraftlog")
+	if err != nil {
+		panic(err)
+	}
+	defer os.RemoveAll(dir)
+	rl, err := newRaftLogOpts(raftLogOptions{Path: dir + "/wal", NoSync: true})
+	if err != nil {
+		panic(err)
+	}
+	if covered > 0 {
+		if err := rl.StoreLog(&raft.Log{Index: covered, Term: 1, Type: raft.LogNoop}); err != nil {
+			panic(err)
+		}
+	}
+	snaps, err := raft.NewFileSnapshotStore(dir, 1, ioutil.Discard)
+	if err != nil {
+		panic(err)
+	}
+	n.raftLog, n.snapshots = rl, snaps
+	err = rc.reconcileStateWithLog()
+	n.raftLog, n.snapshots = nil, nil
+	rl.Close()
+	if err != nil {
+		panic(err)
+	}
+}
+
 func (c *zzCluster) deliver(i int, e zzEntry) interface{} {
+	if e.index > c.stores[i].Covered {
+		c.stores[i].Covered = e.index // Raft persists an entry before it applies it
+	}
 	return c.nodes[i].Apply(&raft.Log{Index: e.index, Term: 1, Type: raft.LogCommand, Data: e.data})
 }
 
